@@ -34,6 +34,9 @@ type RTarget struct {
 	ExecOut bool     `json:",omitempty"` // command additionally makes its (single, regular-file) output executable
 	// Tools are labels of targets the rule declares as tools (built before it, hashed as inputs, but not in $SRCS).
 	Tools []string `json:",omitempty"`
+	// OptOut: the command additionally writes "<name>.opt" (bytes derived from the inputs), declared as
+	// optional_outs - an output that is collected if present but not required.
+	OptOut bool `json:",omitempty"`
 	// SubOut puts the outputs of a genrule into a sub-directory ("o/<name>.out") of the package's output dir.
 	SubOut bool `json:",omitempty"`
 	// Visibility is the target's visibility list (nil = ["PUBLIC"]); TestOnly marks it test_only.
@@ -387,6 +390,9 @@ func (r *Repo) Eval() (outs map[string][]OutEnt, ok map[string]bool) {
 			if t.ExecOut && t.Cmd == "dirn" {
 				es[0].Node.Children[0].Exec = true
 			}
+			if t.OptOut {
+				es = append(es, OutEnt{t.Name + ".opt", &Node{Name: t.Name + ".opt", Content: "opt " + sanitizeTail(d, 8)}})
+			}
 			outs[t.Label()] = es
 		}
 	}
@@ -485,7 +491,7 @@ const shLib = `L(){ printf '%s %s\n' "$1" '@LABEL@' >> "${TMP_DIR%%/plz-out/tmp/
 	`K(){ D | LC_ALL=C tr -c 'a-z0-9' '_' | tail -c 8; }; `
 
 // DefsText is the build_defs file every package subincludes when Repo.Subinclude is set.
-const DefsText = "def vgenrule(name:str, srcs:list, outs:list, cmd:str, visibility:list, requires:list=None, provides:dict=None, test_only:bool=False, tools:list=None):\n    return genrule(name=name, srcs=srcs, outs=outs, cmd=cmd, visibility=visibility, requires=requires, provides=provides, test_only=test_only, tools=tools)\n"
+const DefsText = "def vgenrule(name:str, srcs:list, outs:list, cmd:str, visibility:list, requires:list=None, provides:dict=None, test_only:bool=False, tools:list=None, optional_outs:list=None):\n    return genrule(name=name, srcs=srcs, outs=outs, cmd=cmd, visibility=visibility, requires=requires, provides=provides, test_only=test_only, tools=tools, optional_outs=optional_outs)\n"
 
 // plainPkg reports whether a package defines its rules directly (no subinclude): the packages that
 // produce the subincluded file itself.
@@ -521,6 +527,9 @@ func (t *RTarget) ShellCmd() string {
 	}
 	if t.SubOut {
 		c += `for o in $OUTS; do mkdir -p "$(dirname "$o")"; done; `
+	}
+	if t.OptOut {
+		body += ` && { printf 'opt '; K; } > ` + t.Name + `.opt`
 	}
 	if t.ExecOut && t.Cmd != "multi" && t.Cmd != "dirk" && t.Cmd != "dirn" && t.Cmd != "defs" {
 		body += ` && chmod +x "$OUT"`
@@ -581,6 +590,9 @@ func (r *Repo) RenderTarget(t *RTarget) string {
 	if len(t.Tools) > 0 {
 		extra += ", tools=" + pyList(t.Tools)
 	}
+	if t.OptOut {
+		extra += ", optional_outs=" + pyList([]string{t.Name + ".opt"})
+	}
 	if t.TestOnly {
 		extra += ", test_only=True"
 	}
@@ -635,7 +647,7 @@ func (r *Repo) TreeFiles() map[string]string {
 		m[filepath.Join(f.Pkg, f.Path)] = f.Content
 	}
 	if r.Subinclude && !r.DefsChain {
-		defs := "def vgenrule(name:str, srcs:list, outs:list, cmd:str, visibility:list, requires:list=None, provides:dict=None, test_only:bool=False, tools:list=None):\n    return genrule(name=name, srcs=srcs, outs=outs, cmd=cmd, visibility=visibility, requires=requires, provides=provides, test_only=test_only, tools=tools)\n"
+		defs := "def vgenrule(name:str, srcs:list, outs:list, cmd:str, visibility:list, requires:list=None, provides:dict=None, test_only:bool=False, tools:list=None, optional_outs:list=None):\n    return genrule(name=name, srcs=srcs, outs=outs, cmd=cmd, visibility=visibility, requires=requires, provides=provides, test_only=test_only, tools=tools, optional_outs=optional_outs)\n"
 		switch r.BrokenDefs {
 		case "syntax":
 			m["defs/BUILD"] = "filegroup(name=\"defs\", srcs=[\"defs.build_defs\"], visibility=[\"PUBLIC\"])\n"
